@@ -15,7 +15,7 @@ import ast
 from typing import Any, Dict, List, Optional
 
 from ..kit import Kit, is_call, key, norm
-from ..index import dotted, walk_shallow, unparse
+from ..index import dotted, walk_shallow, unparse, parent as idx_parent
 from ..absint import (evaluate, product, Obj, Unknown, _Raise, NotEvaluable)
 
 CONN = 'connection.SSHConnection.'
@@ -502,6 +502,96 @@ def r8(k: Kit) -> None:
                   'the handshake signature is verified with the presented '
                   'parameters', eqf.loc())
 
+def r9(k: Kit) -> None:
+    """Derived option objects; the known-hosts list of a configuration."""
+    from ..flow import expr_sources
+    rep = k.rep
+    idx = k.idx
+    rep.rule('C04.R9', 'Options.__init__ never stores the kwargs dict of the '
+             'options it derives from (get_server_host_key / '
+             'get_server_auth_methods derive options with known_hosts=None: '
+             'written into a shared dict that would switch checking off for '
+             'every later connect with the original options); '
+             'SSHClientConnectionOptions.prepare builds known_hosts from the '
+             'user files followed by the global files (evaluated)')
+    fi = k.func('misc.Options.__init__')
+    g = k.cfg(fi)
+    rd = k.rd(fi)
+    sts = k.stores_to(fi, 'self.kwargs')
+    rep.floor('C04.R9', 'kwargs stores', len(sts), 1)
+    for n, v in sts:
+        leaves, free = expr_sources(g, rd, n.id, v) if v is not None \
+            else ([], set())
+        shared = [l for l in list(leaves) + ([v] if v is not None else [])
+                  for x in ast.walk(l)
+                  if isinstance(x, ast.Attribute) and x.attr == 'kwargs' and
+                  dotted(x) != 'self.kwargs' and not (
+                      isinstance(idx_parent(x), ast.Attribute) and
+                      isinstance(idx_parent(idx_parent(x)), ast.Call) and
+                      idx_parent(x).attr in ('copy',)) and not (
+                      isinstance(idx_parent(x), ast.Call) and
+                      dotted(idx_parent(x).func) in ('dict',))]
+        rep.check(not shared, 'C04.R9', key(fi, 'kwargs copied, not shared'),
+                  'self.kwargs is a copy',
+                  f'`{norm(v) if v is not None else "?"}` makes the derived '
+                  'options share the keyword dict of their source: '
+                  'get_server_host_key(options=opts) writes known_hosts=None '
+                  'into opts itself and the next connect(options=opts) skips '
+                  'host key checking', k.loc(fi, n))
+    # known_hosts from the configuration
+    pf = k.func('connection.SSHClientConnectionOptions.prepare')
+    stmt = None
+    for st in ast.walk(pf.node):
+        if isinstance(st, ast.If) and isinstance(st.test, ast.Compare) and \
+                dotted(st.test.left) == 'known_hosts' and any(
+                    dotted(t) == 'self.known_hosts' for x in ast.walk(st)
+                    if isinstance(x, ast.Assign) for t in x.targets):
+            stmt = st
+            break
+    if stmt is None:
+        rep.error('C04.R9', key(pf, 'known_hosts fragment'), 'not found')
+        return
+    bad = None
+    n = 0
+    for user in ((), ['u1', 'u2'], ['u1']):
+        for glob in (None, ['g1'], ['g1', 'g2']):
+            n += 1
+
+            def on_call(nm, args, env, user=user, glob=glob):
+                if nm == 'config.get':
+                    if args[0] == 'UserKnownHostsFile':
+                        return user if user != () else (
+                            args[1] if len(args) > 1 else None)
+                    if args[0] == 'GlobalKnownHostsFile':
+                        return glob if glob is not None else (
+                            args[1] if len(args) > 1 else None)
+                if nm == 'cast':
+                    return args[1]
+                if nm == 'list':
+                    return list(args[0])
+                return Obj('x')
+            try:
+                o = evaluate(idx, pf.module, [stmt], {},
+                             {'known_hosts': (), 'config': Obj('config')},
+                             on_call)
+            except NotEvaluable as exc:
+                rep.error('C04.R9', key(pf, 'not-evaluable'), str(exc))
+                return
+            got = dict(o.stores).get('self.known_hosts')
+            want = list(user) + list(glob or [])
+            if isinstance(got, tuple):
+                got = list(got)
+            if got != want and bad is None:
+                bad = (f'UserKnownHostsFile {list(user) or "unset"}, '
+                       f'GlobalKnownHostsFile {glob or "unset"}: known_hosts '
+                       f'= {got!r}, expected {want!r} - a file that is not '
+                       'read cannot revoke: keys marked @revoked in the '
+                       'global file are accepted')
+    rep.count('eval.known_hosts_config_states', n)
+    rep.check(bad is None, 'C04.R9', key(pf, 'user then global known hosts'),
+              f'{n} combinations', str(bad), pf.loc(stmt))
+
+
 def run(idx, rep, tier):
     k = Kit(idx, rep)
     rep.assumptions += NOT_DECIDED
@@ -514,6 +604,7 @@ def run(idx, rep, tier):
     r4(k)
     r6(k)
     r8(k)
+    r9(k)
     # C04.R7: the known-hosts file options of the client config follow the
     # first-obtained-value rule (= the relevant rows of C18.R1): a later
     # `UserKnownHostsFile none` must not switch verification off
@@ -546,7 +637,7 @@ def run(idx, rep, tier):
     # C04.R5: the trusted sets come from known_hosts matching; its
     # classification / negation / port rules are C17.R1-R2
     from .c17 import (r1 as c17r1, r2 as c17r2, wildcard_witnesses,
-                      port_fallback)
+                      port_fallback, build_pattern_witnesses)
     rep.rule('C04.R5', 'known_hosts pattern and classification rules '
              '(= C17.R1, C17.R2, wildcard witnesses of C17.R5): a negated '
              'element excludes the line, markers select the right trust '
@@ -556,5 +647,6 @@ def run(idx, rep, tier):
     c17r2(k)
     wildcard_witnesses(k, 'C04.R5')
     port_fallback(k, 'C04.R5')
+    build_pattern_witnesses(k, 'C04.R5')
     for o in rep.obligations[before:]:
         o.rule = 'C04.R5'
